@@ -269,6 +269,10 @@ struct World {
     /// the ops as they took effect (what the model is run on), parallel to `obs`
     eff: Vec<String>,
     any_closing: bool,
+    /// requests written and not known to have ended: id -> absolute deadline (ms)
+    pending: BTreeMap<u64, u64>,
+    /// the order in which the DelayQueue hands out simultaneously due timers became observable
+    ambiguous: bool,
 }
 
 fn outcome(r: &Result<u64, RpcError>) -> String {
@@ -303,6 +307,63 @@ fn tag_outcome(r: &Result<u64, RpcError>) -> &'static str {
 }
 
 impl World {
+    /// tokio-util's DelayQueue hands out simultaneously due timers in an order that depends on
+    /// its wheel internals (slot stacks, cascades); the model uses a canonical order. The order is
+    /// observable only if, inside one dispatch poll, an expiry happens while at least two
+    /// requests are due and a response for one of them is read in a LATER iteration of the same
+    /// poll (reads precede expiries within an iteration, cancels and requests precede expiries).
+    /// Such a script is compared only up to that poll (over-approximation: a few more are cut).
+    fn detect_timer_ambiguity(&mut self, log: &[crate::stransport::Call<Sent, Recv>]) {
+        use crate::stransport::{Call, NextRes};
+        let now = vclock::now_ms().max(0) as u64;
+        // iterations of the pump loop: (a message was written, ids due at its end, id read at its start)
+        let mut iters: Vec<(bool, Vec<u64>, Option<u64>)> = vec![(false, vec![], None)];
+        let close_iter = |pending: &BTreeMap<u64, u64>, it: &mut (bool, Vec<u64>, Option<u64>)| {
+            it.1 = pending.iter().filter(|(_, dl)| **dl <= now).map(|(i, _)| *i).collect();
+        };
+        for c in log {
+            match c {
+                Call::Next(n) => {
+                    let mut last = iters.pop().unwrap();
+                    close_iter(&self.pending, &mut last);
+                    iters.push(last);
+                    let read = if let NextRes::Item(r) = n { Some(r.id) } else { None };
+                    if let Some(id) = read {
+                        self.pending.remove(&id);
+                    }
+                    iters.push((false, vec![], read));
+                }
+                Call::Send(Sent::Req { id, deadline_ms, .. }, ok) => {
+                    iters.last_mut().unwrap().0 = true;
+                    if *ok {
+                        self.pending.insert(*id, *deadline_ms);
+                    }
+                }
+                Call::Send(Sent::Cancel { id, .. }, _) => {
+                    iters.last_mut().unwrap().0 = true;
+                    self.pending.remove(id);
+                }
+                _ => {}
+            }
+        }
+        let mut last = iters.pop().unwrap();
+        close_iter(&self.pending, &mut last);
+        iters.push(last);
+        for j in 0..iters.len() {
+            if !iters[j].0 && iters[j].1.len() >= 2 {
+                for later in &iters[j + 1..] {
+                    if let Some(id) = later.2 {
+                        if iters[j].1.contains(&id) {
+                            self.ambiguous = true;
+                        }
+                    }
+                }
+            }
+        }
+        // whatever was due has expired by the end of the poll
+        self.pending.retain(|_, dl| *dl > now);
+    }
+
     fn show_sent(&mut self, m: &Sent) -> String {
         let b = |x: bool| if x { "true" } else { "false" };
         match m {
@@ -346,6 +407,7 @@ impl World {
         let d = self.dispatch.as_mut().unwrap();
         let r = catch_unwind(AssertUnwindSafe(|| d.as_mut().poll(&mut cx)));
         let log = self.tr.take_log();
+        self.detect_timer_ambiguity(&log);
         for c in &log {
             match c {
                 crate::stransport::Call::Ready(crate::stransport::TRes::Pending) => {
@@ -549,6 +611,9 @@ type Shared = Rc<RefCell<World>>;
 fn exec_range(w: &Shared, rt: &tokio::runtime::Runtime, ops: &Rc<Vec<Op>>, from: usize, until: usize) {
     let mut k = from;
     while k < until {
+        if w.borrow().ambiguous {
+            return;
+        }
         let op = ops[k].clone();
         let mut o: Vec<String> = vec![];
         #[allow(unused_assignments)]
@@ -716,6 +781,11 @@ fn exec_range(w: &Shared, rt: &tokio::runtime::Runtime, ops: &Rc<Vec<Op>>, from:
                 o = vec![w.borrow_mut().settle()];
             }
         }
+        if w.borrow().ambiguous {
+            // compare only up to the poll in which the timer order became observable
+            w.borrow_mut().tags.insert("truncated:timer-order-observable".into());
+            return;
+        }
         let mut wb = w.borrow_mut();
         // Arming a fault is the one transport event nobody can be waiting for (the model's
         // unsolicited poll would run into it): it wakes the dispatch, as a failing socket would.
@@ -782,6 +852,8 @@ pub fn run_impl(s: &Script) -> (Vec<Vec<String>>, Vec<String>, Vec<String>) {
         obs: vec![],
         eff: vec![],
         any_closing: false,
+        pending: BTreeMap::new(),
+        ambiguous: false,
     }));
     let ops = Rc::new(s.ops.clone());
     exec_range(&world, &rt, &ops, 0, ops.len());
